@@ -547,6 +547,8 @@ func (e *EvalCtx) call(n ECall) Val {
 		return Val{K: KInt, T: fmt.Sprintf("(ite (> %s %s) %s %s)", a.T, b.T, a.T, b.T), Typ: a.Typ}
 	case "wrap64": // Go int/int64 wrap-around of a mathematical integer
 		return Val{K: KInt, T: "(wrapS " + arg(0).T + " 9223372036854775808 18446744073709551616)", Typ: types.Typ[types.Int]}
+	case "byteAt": // byteAt(s, i): the i-th byte of s (see lookup in exec.go)
+		return intVal("(str.to_code (str.at " + arg(0).T + " " + arg(1).T + "))")
 	case "hasPrefix":
 		return boolVal("(str.prefixof " + arg(1).T + " " + arg(0).T + ")")
 	case "hasSuffix":
